@@ -574,7 +574,9 @@ fn main() {
     let mode = arg("--mode").unwrap_or_else(|| "full".into());
     let mut rng = Rng::new(seed_from_env());
     let pre = "From Sci Require Import Wire.Cases_C02. Open Scope N_scope.";
-    let mut sh = Shards::new(&out, pre, "vcase", "verdicts", if mode == "sizes" { 400 } else { 25 });
+    // 16 shards are evaluated in parallel: size the shards so that the quick tier is one round
+    let per_shard = if mode == "sizes" { (n / 16).clamp(100, 400) } else { (n / 16).clamp(13, 25) };
+    let mut sh = Shards::new(&out, pre, "vcase", "verdicts", per_shard);
     let mut sum = Summary::default();
     let mut seen = std::collections::HashSet::new();
 
